@@ -311,15 +311,23 @@ structure VarShow where
   initial : Option Str
   deriving DecidableEq, Repr
 
-def decOne (strings : List Str) (dec0 : Str) : Except RErr VarShow :=
+/-- `eqJoin`: how the initial value is taken from `paren_split("=", dec)` -
+    `false`: `split[1]` (as the code was: the value is cut at a second top-level `=`, and an empty
+    `split[1]` raises IndexError); `true`: `"=".join(split[1:])` (repaired by the `fix:` commit for
+    C01-initial-relational / C18-initial-cut-at-equals).  Decided by the harness from the code. -/
+def initParts (eqJoin : Bool) (v : Str) (rest : List Str) : Except RErr Str :=
+  if eqJoin then .ok (joinSep '=' (v :: rest))
+  else if v.isEmpty then .error .emptyInit else .ok v
+
+def decOne (strings : List Str) (dec0 : Str) (eqJoin : Bool := false) : Except RErr VarShow :=
   let dec := removeSpaces dec0
   match parenSplit '=' dec with
-  | nm :: v :: _ =>
-    match v with
-    | [] => .error .emptyInit
-    | c :: rest =>
-      let points := c == '>'
-      let ini := if points then rest else v
+  | nm :: v :: more =>
+    match initParts eqJoin v more with
+    | .error e => .error e
+    | .ok value =>
+      let points := value.head? == some '>'
+      let ini := if points then value.drop 1 else value
       let nd := splitNameDim nm
       if ini.isEmpty then .ok ⟨nd.1, nd.2, points, some []⟩
       else
@@ -330,13 +338,14 @@ def decOne (strings : List Str) (dec0 : Str) : Except RErr VarShow :=
     let nd := splitNameDim (strip dec)
     .ok ⟨nd.1, nd.2, false, none⟩
 
-def decAll (strings : List Str) : List Str → Except RErr (List VarShow)
+def decAll (strings : List Str) (ds : List Str) (eqJoin : Bool := false) : Except RErr (List VarShow) :=
+  match ds with
   | [] => .ok []
   | d :: ds =>
-    match decOne strings d with
+    match decOne strings d eqJoin with
     | .error e => .error e
     | .ok v =>
-      match decAll strings ds with
+      match decAll strings ds eqJoin with
       | .error e => .error e
       | .ok vs => .ok (v :: vs)
 
@@ -348,11 +357,11 @@ def afterColons : Str → Option Str
 
 /-- the declared entities of one (unmasked) declaration line, as FORD will show them, for a
     project with the option `lower` off / on -/
-def declVarsOpt (lowerOpt : Bool) (line : Str) : Except RErr (List VarShow) :=
+def declVarsOpt (lowerOpt : Bool) (line : Str) (eqJoin : Bool := false) : Except RErr (List VarShow) :=
   let p := prepLine lowerOpt line
   match afterColons p.masked with
   | none => .ok []
-  | some d => decAll p.strings (parenSplit ',' (strip d))
+  | some d => decAll p.strings (parenSplit ',' (strip d)) eqJoin
 
 /-- ... with the default settings -/
 def declVars (line : Str) : Except RErr (List VarShow) := declVarsOpt false line
